@@ -302,8 +302,19 @@ func boardPlaysTweak(c *Cfg, r *rand.Rand) {
 	}
 }
 
+// limped pot; on the flop the small blind checks, the big blind shoves his last three chips, two folds,
+// and the small blind check-raises by at least the size of that bet (far below the big blind)
+func scenarioCheckRaiseOverDustAllin() handCase {
+	c := &Cfg{N: 4, Banks: []int64{10000, 10000, 13, 10000}, SB: 5, BB: 10, Limit: "no", Hole: 2, DealerIdx: 0, Burn: 1}
+	c.Deck = fullDeck(false)
+	c.Personas = []int{personaCaller, personaCaller, personaCaller, personaCaller}
+	script := []Op{{Name: "call", Seat: -1}, {Name: "call", Seat: -1}, {Name: "call", Seat: -1}, {Name: "check", Seat: -1},
+		{Name: "check", Seat: -1}, {Name: "allin", Seat: -1}, {Name: "fold", Seat: -1}, {Name: "fold", Seat: -1}, {Name: "raise", Seat: -1, Amt: 8}}
+	return handCase{c, script}
+}
+
 func commonScenarios() []handCase {
-	return []handCase{scenarioTieWithFoldedLevels(), scenarioOverbetThenMinRaise(), scenarioHeadsUpShortBB(), scenarioSidePots(), scenarioFoldOut(), scenarioBoardPlays(false), scenarioBoardPlays(true)}
+	return []handCase{scenarioTieWithFoldedLevels(), scenarioOverbetThenMinRaise(), scenarioCheckRaiseOverDustAllin(), scenarioHeadsUpShortBB(), scenarioSidePots(), scenarioFoldOut(), scenarioBoardPlays(false), scenarioBoardPlays(true)}
 }
 
 // --- per-property engine checks ---------------------------------------------------------------
